@@ -55,7 +55,24 @@ impl<P: SWCurveConfig> Model for SwM<P> {
         sw_to_affine::<P>(p)
     }
     fn aff_zero() -> Vec<Self::Aff> {
-        vec![SwAffine::<P>::identity(), <SwAffine<P> as AffineRepr>::zero(), SwAffine::<P>::default(), -SwAffine::<P>::identity(), SwProj::<P>::zero().into_affine()]
+        let mut v = vec![SwAffine::<P>::identity(), <SwAffine<P> as AffineRepr>::zero(), SwAffine::<P>::default(), -SwAffine::<P>::identity(), SwProj::<P>::zero().into_affine()];
+        // an identity obtained by decoding: the uncompressed encoding of the generator with the infinity flag of the generic
+        // format set on top of its coordinates (kept only if the library decodes it, and decodes it to an identity)
+        use ark_serialize::{CanonicalDeserialize, CanonicalSerialize, Compress, Validate};
+        let mut bytes = Vec::new();
+        if P::GENERATOR.serialize_with_mode(&mut bytes, Compress::No).is_ok() {
+            if let Some(last) = bytes.last_mut() {
+                *last |= 0x40;
+            }
+            for val in [Validate::No, Validate::Yes] {
+                if let Ok(Ok(z)) = std::panic::catch_unwind(|| SwAffine::<P>::deserialize_with_mode(&bytes[..], Compress::No, val)) {
+                    if z.is_zero() {
+                        v.push(z);
+                    }
+                }
+            }
+        }
+        v
     }
     fn proj_zero() -> Vec<Self::Proj> {
         vec![SwProj::<P>::zero(), SwProj::<P>::default(), <SwProj<P> as AdditiveGroup>::ZERO, SwAffine::<P>::identity().into_group(), -SwProj::<P>::zero()]
